@@ -543,6 +543,7 @@ def _run_step(k, st, sc, loader, params, NM, script, rebuild):
             del loader.jdd[key]
         loader.jdd[(99,)] = 0.5
     inplace = how in ("inplace", "new_callables") or (how in ("setter", "equal") and k in (2, 3, 4))
+    force_reload = False
     if how == "repeat":
         pass
     elif k == 0:
@@ -564,6 +565,14 @@ def _run_step(k, st, sc, loader, params, NM, script, rebuild):
             params[NM.JDS] = new
             loader.empirical_jds = new
     else:
+        # marginal / function loaders expose no accessor for their bounds or callables: a loader that took a private
+        # copy of those lists at construction is as right as one that keeps the caller's lists.  A step that changes
+        # the bounds or REPLACES callables in the caller's list is therefore always followed by a NEW construction
+        # from the same params dict (which must see the current contents); only a changed behaviour of the SAME
+        # callables is followed by create_jdd() on the same loader
+        if ([tuple(b) for b in params[NM.LOW_HIGH_DEGREE_BOUND]] != [tuple(b) for b in sc["bounds"]]
+                or how == "new_callables" or (k != 4 and len(params[NM.ARR_FP]) != len(sc["tables"]))):
+            force_reload = True
         _edit_list(params[NM.LOW_HIGH_DEGREE_BOUND], [tuple(b) for b in sc["bounds"]])
         if k == 4:
             params[NM.FP].tab.clear()
@@ -598,7 +607,7 @@ def _run_step(k, st, sc, loader, params, NM, script, rebuild):
     n0 = len(script.log)
     out = {"how": how}
     try:
-        if st.get("reload"):
+        if st.get("reload") or force_reload:
             loader = rebuild()
             out["how"] = how + "+reload"
         else:
